@@ -16,7 +16,7 @@ EXPLAIN = "c02_explain"
 CASES_PER_FILE = 120
 CASE_FILE_BYTES = 150000
 CASE_TIMEOUT = 20
-TIERS = {"quick": {"n": 1200}, "thorough": {"n": 40000}}
+TIERS = {"quick": {"n": 1800}, "thorough": {"n": 40000}}
 RULE = ("histories of 1-50 (thorough: up to 120) public dict-API calls (item get/set/del, get, setdefault, update "
         "with dict/mapping/pairs/generator + kwargs, |=, pop, popitem, clear, copy, in, len, iteration, items, "
         "==/!= against dicts and caches) on an LRI or LRU with max_size 1-4 (sometimes 5-8, thorough also 128), 3-7 "
@@ -83,7 +83,7 @@ def vtok(obj):
 LOOKUPS = ("getitem", "get", "setdefault")
 W_OPS = [("set", 22), ("getitem", 14), ("get", 8), ("setdefault", 7), ("del", 5), ("pop", 6), ("popitem", 3),
          ("clear", 1), ("update", 5), ("ior", 3), ("in", 4), ("len", 1), ("iter", 2), ("items", 2), ("eq", 3),
-         ("ne", 1), ("copy", 3), ("eqc", 2)]
+         ("ne", 1), ("copy", 3), ("eqc", 2), ("updself", 1), ("eqo", 1), ("neo", 1)]
 
 
 def _pairs(rng, keys, nvals, lo, hi, unique):
@@ -95,7 +95,20 @@ def _pairs(rng, keys, nvals, lo, hi, unique):
     return [[k, rng.randrange(nvals)] for k in ks]
 
 
+OTHERS = [None, 5, "a", [("a", 1)], {"a"}, ("a",), 2.5, b"a"]     # operands of == that are not mappings
+
+
+def gen_ctor_case(rng):
+    """Constructor outcomes: non-positive max_size (ValueError), non-callable on_miss (TypeError)."""
+    mx = rng.choice([0, 0, -1, -3, 1, 2, 5])
+    bad = rng.random() < 0.6 or mx > 0
+    return {"cls": rng.choice(["LRI", "LRU"]), "max": mx, "on_miss": None, "on_miss_bad": bad, "init": [],
+            "init_kind": "none", "full": "all", "ops": []}
+
+
 def gen_case(rng, tier):
+    if rng.random() < 0.015:
+        return gen_ctor_case(rng)
     big = tier == "thorough" and rng.random() < 0.04
     if big:
         mx = 128
@@ -173,6 +186,10 @@ def gen_case(rng, tier):
             continue
         elif name == "eqc":
             op.update(j=rng.randrange(ncaches))
+        elif name == "updself":
+            op.update(f=[[KW0 + t, rng.randrange(nvals)] for t in rng.sample(range(4), rng.choice([0, 1, 1, 2, 3]))])
+        elif name in ("eqo", "neo"):
+            op.update(x=rng.randrange(len(OTHERS)), how=rng.randrange(2))
         ops.append(op)
         if rng.random() < 0.03 and not big:         # eviction probe in the middle of the history
             for t in range(mx):
@@ -250,6 +267,11 @@ def _eq_operand(op, c):
     return d
 
 
+def rng_free_noncallable(case):
+    """A non-callable, non-None on_miss argument, chosen from the case (no randomness here)."""
+    return [5, "f", (1,), 0, [], {"k": 1}][(case["max"] + len(case["cls"])) % 6]
+
+
 def resolve(i, ncaches):
     return i % ncaches
 
@@ -266,10 +288,15 @@ def run_impl(case):
         def on_miss(k):
             calls.append(ktok(k))
             return val(table.get(k, dflt))
-    if case["init_kind"] == "none":
-        c0 = cls(case["max"], on_miss=on_miss) if case["max"] % 2 else cls(max_size=case["max"], on_miss=on_miss)
-    else:
-        c0 = cls(max_size=case["max"], values=_arg(case["init_kind"], case["init"]), on_miss=on_miss)
+    if case.get("on_miss_bad"):
+        on_miss = rng_free_noncallable(case)
+    try:
+        if case["init_kind"] == "none":
+            c0 = cls(case["max"], on_miss=on_miss) if case["max"] % 2 else cls(max_size=case["max"], on_miss=on_miss)
+        else:
+            c0 = cls(max_size=case["max"], values=_arg(case["init_kind"], case["init"]), on_miss=on_miss)
+    except (ValueError, TypeError) as e:
+        return [{"ctor": type(e).__name__}]
     caches = [c0]
     obs = []
     for n, op in enumerate(case["ops"]):
@@ -351,6 +378,18 @@ def run_impl(case):
                 r = (c == caches[resolve(op["j"], len(caches))])
                 assert r is True or r is False
                 out = ["bool", r]
+            elif name == "updself":
+                r = c.update(c, **{key(k): val(v) for k, v in op["f"]})
+                assert r is None
+                out = ["none"]
+            elif name in ("eqo", "neo"):
+                x = _copy.deepcopy(OTHERS[op["x"]])
+                if name == "eqo":
+                    r = (c == x) if op["how"] == 0 else (x == c)
+                else:
+                    r = (c != x) if op["how"] == 0 else (x != c)
+                assert r is True or r is False
+                out = ["bool", r]
             else:
                 raise ValueError(name)
             out = ["ok"] + out
@@ -405,6 +444,12 @@ def _op1(op, o):
         return "EqDict %s" % _kv(o["arg"])
     if n == "ne":
         return "NeDict %s" % _kv(o["arg"])
+    if n == "updself":
+        return "UpdateSelf %s" % _kv(op["f"])
+    if n == "eqo":
+        return "EqOther"
+    if n == "neo":
+        return "NeOther"
     raise ValueError(n)
 
 
@@ -434,6 +479,10 @@ def _out(out):
 def to_coq(case, obs):
     steps = []
     ncaches = 1
+    ctor = "None"
+    if len(obs) == 1 and "ctor" in obs[0]:
+        ctor = "(Some %s)" % obs[0]["ctor"]
+        obs = []
     assert len(obs) == len(case["ops"])
     for op, o in zip(case["ops"], obs):
         i = resolve(op["i"], ncaches)
@@ -454,13 +503,14 @@ def to_coq(case, obs):
     init = case["init"]
     if case["init_kind"] in ("dict", "mapping"):
         assert len({k for k, _ in init}) == len(init)
-    return "mkCase %s %s %s %s %s" % (case["cls"], cnat(case["max"]), om_t, _kv(init), clist(steps))
+    return "mkCase %s %s %s %s %s %s %s" % (case["cls"], cnat(max(0, case["max"])), om_t,
+                                            cbool(not case.get("on_miss_bad")), ctor, _kv(init), clist(steps))
 
 
 # ---------------------------------------------------------------------------
 def corrupt(case, obs):
     """A wrong observation for the canary: one hit counter off by one from some step on."""
-    if not obs:
+    if not obs or "ctor" in obs[0]:
         return None
     bad = _copy.deepcopy(obs)
     j = len(bad) // 2
@@ -470,6 +520,8 @@ def corrupt(case, obs):
 
 def _views(case, obs):
     """(op, cache index, keys before, keys after) for steps with consecutive full views."""
+    if obs and "ctor" in obs[0]:
+        return
     last = {}
     ncaches = 1
     for op, o in zip(case["ops"], obs):
@@ -500,6 +552,8 @@ def distribution(d, case, obs):
     def inc(group, k, by=1):
         d.setdefault(group, {})
         d[group][str(k)] = d[group].get(str(k), 0) + by
+    if not case["ops"] and (case["max"] <= 0 or case.get("on_miss_bad")):
+        inc("constructor", obs[0]["ctor"] if obs and "ctor" in obs[0] else "constructed")
     inc("class", case["cls"])
     inc("max_size", case["max"])
     inc("on_miss", "function" if case["on_miss"] else "None")
